@@ -1,5 +1,5 @@
 """M1 for the nitro-level concurrency properties: exhaustive TLC runs of NitroWriters.tla."""
-import os
+import json, os, random, re
 import vlib
 from vlib import Infra, log
 
@@ -15,9 +15,9 @@ def cfg_text(writers, maxops, maxnodes, oldlive, fix=True):
 
 def model_check(ctx, thorough):
     vlib.stage_specs(ctx.wd, [])
-    insts = [("MC_NW_2w.cfg", cfg_text(["w1", "w2"], 3, 4, True)), ("MC_NW_3w.cfg", cfg_text(["w1", "w2", "w3"], 2, 4, True))]
+    insts = [("MC_NW_2w.cfg", cfg_text(["1", "2"], 3, 4, True)), ("MC_NW_3w.cfg", cfg_text(["1", "2", "3"], 2, 4, True))]
     if thorough:
-        insts += [("MC_NW_3w3.cfg", cfg_text(["w1", "w2", "w3"], 3, 5, True)), ("MC_NW_2w_fresh.cfg", cfg_text(["w1", "w2"], 4, 5, False))]
+        insts += [("MC_NW_3w3.cfg", cfg_text(["1", "2", "3"], 3, 5, True)), ("MC_NW_2w_fresh.cfg", cfg_text(["1", "2"], 4, 5, False))]
     for name, text in insts:
         open(os.path.join(ctx.wd, name), "w").write(text)
         r = vlib.run_tlc("NitroWriters.tla", name, ctx.wd, timeout=2400)
@@ -29,3 +29,97 @@ def model_check(ctx, thorough):
         log("[M1] NitroWriters/%s: %d distinct states, depth %d, %.0fs: %s" % (name, r.distinct, r.depth, r.wall, r.violated or "all invariants hold"))
         if not r.ok:
             raise Infra("NitroWriters.tla violates %s in %s: model of the repaired code is wrong (the real code is judged by traces)" % (r.violated, name))
+
+
+# ---------------------------------------------------------------- binding: gate-scheduled writers (M3 / M4)
+
+def reset(e):
+    return e.get("e") == "NwInit"
+
+
+def beh_to_script(labels, nw, old, seed):
+    """A TLC behaviour of NitroWriters.tla -> operations per writer + a gate schedule.  One gate step runs from one
+    nitro yield point to the next, so several model actions (DelStart+G1, N1+N2, ...) share a step."""
+    procs = {str(w): [] for w in range(1, nw + 1)}
+    sched = [str(w) for w in range(1, nw + 1)] + ["fw"]      # everybody reaches its first idle point
+    for lb in labels:
+        m = re.match(r"^(\w+)(?:\((\d+)\))?$", lb)
+        if not m:
+            continue
+        act, w = m.group(1), m.group(2)
+        if act == "Put":
+            procs[w].append(["put"])
+            sched += [w, w]
+        elif act == "DelStart":
+            procs[w].append(["del"])
+            sched.append(w)
+        elif act in ("N1", "N3", "N4", "N5"):
+            sched.append(w)
+        elif act == "FwTake":
+            sched.append("fw")
+    return {"nw": nw, "old": old, "procs": procs, "sched": sched, "seed": seed}
+
+
+def run_nw(ctx, what, args):
+    tr = os.path.join(ctx.wd, "nw_%s.ndjson" % what)
+    p = vlib.run_harness(["nw", "-out", tr] + args, timeout=1800)
+    info = json.loads(p.stdout.strip().splitlines()[-1])
+    if info.get("failed"):
+        raise Infra("vh nw (%s): gate reported %s" % (what, str(info["failed"][:2])[:1500]))
+    return tr, info
+
+
+def conformance(ctx, thorough, seed_off=0):
+    """NitroWriters.tla bound to the real writers: TLC-simulated behaviours as gate schedules (M3), seeded random
+    schedules (M2); every model action is one event, TLC (Trace_NitroWriters.tla) replays them and compares every
+    node's real fields, the writers' garbage lists and the allocator's verdicts after every gate step (M4)."""
+    rng = random.Random(vlib.seed() + seed_off)
+    nsim = 1500 if thorough else 150
+    scripts = []
+    for old in (True, False):
+        name = "Sim_NW_%s.cfg" % ("old" if old else "fresh")
+        open(os.path.join(ctx.wd, name), "w").write(
+            "SPECIFICATION Spec\nCONSTANTS\n  Writers = {1, 2, 3}\n  MaxOps = 3\n  MaxNodes = 6\n  OldLive = %s\n  FIXD3 = TRUE\nCHECK_DEADLOCK FALSE\n"
+            % ("TRUE" if old else "FALSE"))
+        vlib.stage_specs(ctx.wd, [])
+        behs, r = vlib.simulate_behaviours("NitroWriters.tla", name, ctx.wd, nsim, 70, vlib.seed() + seed_off + (1 if old else 2))
+        scripts += [beh_to_script(b, 3, old, rng.randrange(1 << 30)) for b in behs]
+    vlib.require_ops(ctx, scripts, "NitroWriters.tla simulated behaviours")
+    sp = os.path.join(ctx.wd, "nw_scripts.ndjson")
+    with open(sp, "w") as f:
+        for s in scripts:
+            f.write(json.dumps(s) + "\n")
+    ctx.add_sample({"kind": "NitroWriters.tla behaviour as operations + gate schedule (M3)", "procs": scripts[0]["procs"], "sched": scripts[0]["sched"][:30]})
+    tr, info = run_nw(ctx, "m3", ["-scripts", sp])
+    ends = [json.loads(l) for l in open(tr) if '"NwEnd"' in l]
+    ctx.extra["nw_schedule_steps_followed_on_impl"] = "%d of %d gate steps followed the TLC behaviour" % (
+        sum(e["followed"] for e in ends), sum(len(e["sched"]) for e in ends))
+    ok = vlib.judge_trace(ctx, "Trace_NitroWriters.tla", "Trace_NitroWriters.cfg", tr,
+                          "TLC-simulated NitroWriters behaviours on the real writers (gate)", info["scenarios"], reset, timeout=2400)
+    first = tr
+    if ok or thorough:
+        tr2, info2 = run_nw(ctx, "m2", ["-seed", vlib.seed() * 10 + seed_off, "-n", 3000 if thorough else 300])
+        vlib.judge_trace(ctx, "Trace_NitroWriters.tla", "Trace_NitroWriters.cfg", tr2,
+                         "random gate schedules of 2-3 writers on one key", info2["scenarios"], reset, timeout=2400)
+        ctx.extra["nw_step_conformance_events"] = info["events"] + info2["events"]
+        os.remove(tr2)
+    # binding demonstration: flip the logged result of one cross-epoch delete
+    if not ctx.violations:
+        lines = open(first).read().splitlines()
+        for i, ln_ in enumerate(lines):
+            if '"a":"N4"' in ln_.replace(" ", ""):
+                e = json.loads(ln_)
+                e["res"] = not e["res"]
+                start = max(k for k in range(0, i + 1) if '"NwInit"' in lines[k])
+                end = next((k for k in range(i + 1, len(lines)) if '"NwInit"' in lines[k]), len(lines))
+                sc = lines[start:i] + [json.dumps(e)] + lines[i + 1:end]
+                cp = os.path.join(ctx.wd, "corrupt.ndjson")
+                open(cp, "w").write("\n".join(sc) + "\n")
+                saved = (ctx.events, ctx.traces, ctx.states, ctx.transitions)
+                bad = ctx.validate("Trace_NitroWriters.tla", "Trace_NitroWriters.cfg", cp, "binding self-test (result of one deadSn CAS flipped)", 0)
+                ctx.events, ctx.traces, ctx.states, ctx.transitions = saved
+                if bad is None:
+                    raise Infra("binding self-test failed: a trace with a flipped delete result was accepted")
+                ctx.extra["nw_binding_selftest"] = "flipped N4 result -> rejected: " + bad["msg"]
+                break
+    os.remove(first)
